@@ -2,12 +2,15 @@ module verifharness
 
 go 1.18
 
-require github.com/jig/lisp v0.0.0
+require (
+	github.com/jig/lisp v0.0.0
+	github.com/jig/scanner v1.2.0
+)
 
 require (
+	github.com/chzyer/readline v1.5.1 // indirect
 	github.com/davecgh/go-spew v1.1.1 // indirect
 	github.com/google/uuid v1.3.0 // indirect
-	github.com/jig/scanner v1.2.0 // indirect
 )
 
 replace github.com/jig/lisp => /repo
